@@ -949,6 +949,11 @@ func (c *Conn) flush() error {
 		}
 		if errors.Is(err, syscall.EAGAIN) {
 			// c.modWrite()
+			if c.p.g.isOneshot {
+				// a one-shot registration is disarmed by the event that brought us
+				// here: ask for the writing event again or the rest is never sent.
+				_ = c.p.modWrite(c.fd)
+			}
 			return nil
 		}
 		if err != nil {
